@@ -227,7 +227,7 @@ theorem inRange_deliver (ext : Ext) (cfg : Cfg) (w : World) (f : List Bool) (m :
 /-- the exported / listed used nonces are exactly the used pairs (every reachable store is Good and InRange). -/
 theorem used_list_exact (ext : Ext) (st : Store) (hg : Good ext st) (hr : InRange st) (d n : Nat)
     (hd : d < 2 ^ 32) (hn : n < 2 ^ 64) :
-    (d, n) ∈ Genesis.scanMap st UsedNonceKeyPrefix (fun | .nonce d n => some (d, n) | _ => none)
+    (d, n) ∈ Genesis.scanMap st UsedNonceKeyPrefix Genesis.usedOf
       ↔ isUsed st d n = true := by
   simp only [Genesis.scanMap, List.mem_filterMap, Store.mem_scan]
   constructor
@@ -235,13 +235,13 @@ theorem used_list_exact (ext : Ext) (st : Store) (hg : Good ext st) (hr : InRang
     have hget := Store.get_of_mem hg.wf hm
     cases v with
     | nonce d' n' =>
-      simp only [Option.some.injEq, Prod.mk.injEq] at hv; obtain ⟨rfl, rfl⟩ := hv
+      simp only [Genesis.usedOf, Option.some.injEq, Prod.mk.injEq] at hv; obtain ⟨rfl, rfl⟩ := hv
       have := hg.typed k _ hget
       simp only [ValOK] at this
       rcases this with rfl | rfl
       · exact absurd (Key.cls_of_prefix_usedNonce _ hp) (by simp)
       · simp [isUsed, Store.has, hget]
-    | _ => simp at hv
+    | _ => simp [Genesis.usedOf] at hv
   · intro hu
     obtain ⟨v, hv⟩ := (Store.has_iff _ _).mp hu
     have ht := hg.typed _ _ hv
